@@ -185,6 +185,21 @@ func verifyFunction(P *Program, db *SpecDB, R *Resolver, fs *FuncSpec, fn *ssa.F
 	res.entryReach = reach
 	f.run(reach, args, frees, st)
 	preserveObligations(e, fn, fs)
+	// a check-at clause whose program point does not exist (any more) is a failed obligation
+	for _, ca := range fs.CheckAts {
+		if f.checkAtHit[ca] == 0 {
+			what := "channel send"
+			if !ca.Send {
+				what = "call of " + ca.Callee
+			}
+			props := ca.Props
+			if len(props) == 0 {
+				props = fs.Props
+			}
+			e.obls = append(e.obls, &Obligation{Name: fnDisplayName(fn) + "/check-at/" + ca.Label + "/exists", Kind: "check-at", Fn: fnDisplayName(fn), Reach: tTrue, Goal: tFalse,
+				Props: props, Verdict: "sat", Model: "no " + what + " in the function (the guarded action was removed or replaced)", Src: ca.Cond.Src})
+		}
+	}
 	res.obls = e.obls
 	res.prelude = e.prelude(true)
 	res.weak = e.prelude(false)
